@@ -183,6 +183,16 @@ func (e *Eng) modsetCall(c *ssa.CallCommon, caller *FuncSpec, visiting map[*ssa.
 	if fn == nil {
 		return
 	}
+	if fn.Pkg != nil && fn.Pkg.Pkg.Path() == "sync/atomic" && len(c.Args) > 0 && fn.Signature.Recv() == nil {
+		// intrinsics write exactly the location they are given
+		if strings.HasPrefix(fn.Name(), "Store") || strings.HasPrefix(fn.Name(), "Add") || strings.HasPrefix(fn.Name(), "CompareAndSwap") || strings.HasPrefix(fn.Name(), "Swap") || strings.HasPrefix(fn.Name(), "And") || strings.HasPrefix(fn.Name(), "Or") {
+			if a := allocRoot(c.Args[0]); a != nil && fresh(a) {
+				return
+			}
+			e.storeTargets(c.Args[0], out)
+		}
+		return
+	}
 	for k := range e.modsetFunc(fn, visiting) {
 		out[k] = true
 	}
@@ -328,4 +338,27 @@ func (e *Eng) declaredMods(sp *FuncSpec, _ *evalCtx) map[string]bool {
 		}
 	}
 	return out
+}
+
+// closureWrites splits what a closure may write into (a) its own captured variables (by free-variable index) and
+// (b) heap components written otherwise.
+func (e *Eng) closureWrites(fn *ssa.Function) (map[int]bool, map[string]bool) {
+	fv := map[int]bool{}
+	out := map[string]bool{}
+	idx := map[*ssa.FreeVar]int{}
+	for i, f := range fn.FreeVars {
+		idx[f] = i
+	}
+	for _, b := range fn.Blocks {
+		for _, in := range b.Instrs {
+			if st, ok := in.(*ssa.Store); ok {
+				if f, ok := st.Addr.(*ssa.FreeVar); ok {
+					fv[idx[f]] = true
+					continue
+				}
+			}
+			e.modsetInstr(in, nil, map[*ssa.Function]bool{fn: true}, out, func(a ssa.Instruction) bool { return true })
+		}
+	}
+	return fv, out
 }
